@@ -44,7 +44,50 @@ def kindOf : String → Option SanKind
   | "dns" => some .dns
   | _ => none
 
+def originReqOf (a now k sv nb na tr : String) : Option OriginReq :=
+  match bytesOfHex a, intOf now, kindOf k, bytesOfHex sv with
+  | some a, some now, some k, some sv =>
+    match intOf nb, intOf na, boolOf tr with
+    | some nb, some na, some tr =>
+      some { authority := a, now := now,
+             cert := { cn := sv, kind := k, sanVal := sv, notBefore := nb, notAfter := na, byCA := tr } }
+    | _, _, _ => none
+  | _, _, _, _ => none
+
+/-- `t,<authority>` | `m,<authority>,<now>,<ip|dns>,<san>,<notBefore>,<notAfter>,<trusted>` | `a,…` -/
+def eventOf (s : String) : Option Event :=
+  match splitList s with
+  | ["t", a] => (bytesOfHex a).map Event.tunnel
+  | ["m", a, now, k, sv, nb, na, tr] => (originReqOf a now k sv nb na tr).map Event.intercepted
+  | ["a", a, now, k, sv, nb, na, tr] => (originReqOf a now k sv nb na tr).map Event.absolute
+  | _ => none
+
+def upstreamOf (k : String) (h : Bytes) : Option Upstream :=
+  match k with
+  | "direct" => some .direct
+  | "http" => some (.http h)
+  | "https" => some (.https h)
+  | "socks5" => some (.socks5 h)
+  | _ => none
+
+def confHandlingOf : String → Option ConfHandling
+  | "cloned" => some .cloned
+  | "shared" => some .shared
+  | _ => none
+
+def evOutStr : EvOut → String
+  | .tunnelled => "tunnelled"
+  | .origin n o => s!"{outcomeStr o}/{hexOfBytes n}"
+
 def handle : List String → String
+  -- hist <cloned|shared> <direct|http|https|socks5> <upstream host> <allowHTTP> <insecure> <event;event;…>
+  --   →  per event: tunnelled | <outcome>/<name verified>     (x509-shaped verifier, fresh instance)
+  | ["hist", v, uk, uh, allow, ins, evs] =>
+    match confHandlingOf v, (bytesOfHex uh).bind (upstreamOf uk), boolOf allow, boolOf ins,
+      (splitList2 evs).mapM eventOf with
+    | some v, some up, some allow, some ins, some evs =>
+      joinList ((runHist v up x509ish allow ins Inst.fresh evs).map evOutStr)
+    | _, _, _, _, _ => "bad-op"
   -- name <sni> <connect host>  →  ok <name> <ip|dns>
   | ["name", sni, host] =>
     match bytesOfHex sni, bytesOfHex host with
